@@ -29,6 +29,12 @@ func main() {
 	for _, h := range hs {
 		replace[filepath.Join(*repo, "zz_verif_"+filepath.Base(h))] = h
 	}
+	// the independent reference implementation becomes the sub-package github.com/coyim/otr3/verifref
+	refDir := filepath.Join(filepath.Dir(*harness), "ref")
+	rs, _ := filepath.Glob(filepath.Join(refDir, "*.go"))
+	for _, f := range rs {
+		replace[filepath.Join(*repo, "verifref", filepath.Base(f))] = f
+	}
 	// package-level variables of package otr3 (non-test files)
 	fset := token.NewFileSet()
 	files, _ := filepath.Glob(filepath.Join(*repo, "*.go"))
